@@ -160,3 +160,57 @@ def two_parsers(rec, rng, corp, prop, rounds, token_key="history/tokens"):
                     p.parse(t)
                 except Exception:
                     pass
+
+
+def marathon(rec, rng, prop, n_texts=4200, altered_key="history/earlier-result-altered"):
+    """One parser that stays in service for thousands of DISTINCT texts (a bounded cache only starts
+    evicting then), after a few failed parses and tokenize-only calls (texts that enter one cache
+    but not the other).  Every call is decided by the monitors attached for `prop`; in addition the
+    first results handed out are kept and must still be what they were at the end."""
+    from ..oracles import shadow as S
+    from mathy_core.parser import ExpressionParser
+
+    p = ExpressionParser()
+    p._vmon_history = []
+    for t in ("4x +", "(x", "2 ^", "x = ", "4 4", "7 + * 2"):
+        try:
+            p.parse(t)
+        except Exception:
+            pass
+    for t in ("7y + 1", "(a + b)(c - d)", "sgn(x)"):
+        try:
+            p.tokenize(t)
+        except Exception:
+            pass
+    kept = []
+    forms = ["{i}x + {j}", "{i} * (y + {j})", "{i}z^2 - {j}z", "({i} + x) / {j}", "-{i}q = {j}"]
+    for i in range(n_texts):
+        t = forms[i % len(forms)].format(i=i + 2, j=(i % 11) + 1)
+        try:
+            r = p.parse(t)
+        except Exception:
+            r = None
+        if r is not None and len(kept) < 6:
+            kept.append((t, r, S.shadow(r)))
+        if i % 613 == 5:
+            try:
+                p.parse(f"{i} + * {i}")
+            except Exception:
+                pass
+            try:
+                p.tokenize(f"{i}w + 1")
+            except Exception:
+                pass
+        if len(p._vmon_history) > 400:
+            del p._vmon_history[:-200]
+    rec.arm("marathon:texts", n_texts)
+    for t, r, sh in kept:
+        rec.ev()
+        try:
+            now = S.shadow(r)
+        except Exception:
+            now = None
+        if now != sh:
+            rec.violation(prop, altered_key, "a tree handed out by parse() was altered by later calls on the parser",
+                          {"text": t, "marathon": True, "summary": f"parse({t!r}) was kept by the caller; after {n_texts} further distinct texts on the same parser the kept tree "
+                           f"reads {S.text_of(r) if now is not None else '<unreadable>'!r}"})
